@@ -204,9 +204,42 @@ AllKeysOK(K) == built.st = "ok" =>
                  \A k \in K : /\ LookupIndexed(built, k) = ModelLookup(model, k)
                               /\ LookupScan(built, k) = ModelLookup(model, k)
 
+\* -- k-way merge of sorted sources with de-duplication (archive group from archive indices) ------
+\* a source is a sorted sequence of <<key, value>>; the smallest head is taken, ties go to the lowest source;
+\* the taken source ALWAYS advances; the record is written unless its key was the last one written
+RECURSIVE MergeR(_, _)
+MergeR(srcs, out) ==
+  LET live == {j \in 1..Len(srcs) : srcs[j] # <<>>} IN
+  IF live = {} THEN out
+  ELSE LET j == CHOOSE x \in live : \A y \in live :
+                    srcs[x][1][1] < srcs[y][1][1] \/ (srcs[x][1][1] = srcs[y][1][1] /\ x <= y)
+           e    == srcs[j][1]
+           rest == [srcs EXCEPT ![j] = Tail(srcs[j])]
+       IN IF out # <<>> /\ out[Len(out)][1] = e[1] THEN MergeR(rest, out) ELSE MergeR(rest, Append(out, e))
+SourceKeys(s)  == {s[i][1] : i \in 1..Len(s)}
+\* the map a merge stands for: every key of any source, with the value of the first source that has it
+MergeModel(srcs) ==
+  LET keys == UNION {SourceKeys(srcs[j]) : j \in 1..Len(srcs)}
+      home(k) == CHOOSE j \in 1..Len(srcs) : k \in SourceKeys(srcs[j]) /\ \A j2 \in 1..(j - 1) : k \notin SourceKeys(srcs[j2])
+      val(s, k) == s[CHOOSE i \in 1..Len(s) : s[i][1] = k][2]
+  IN [k \in keys |-> val(srcs[home(k)], k)]
+MergeOK(srcs) ==
+  LET out == MergeR(srcs, <<>>)
+      m   == MergeModel(srcs)
+  IN /\ \A i \in 1..(Len(out) - 1) : out[i][1] < out[i + 1][1]
+     /\ {out[i][1] : i \in 1..Len(out)} = DOMAIN m
+     /\ \A i \in 1..Len(out) : out[i][2] = m[out[i][1]]
+
 \* ------------------------------------------------------------------------
 \* Part 3: the populations of the conformance runs
 \* ------------------------------------------------------------------------
+\* locale masks of the root blocks a population is dealt over (1 block: enUS; 2: enUS, deDE; 3: enUS, deDE, 0)
+LocENUS == 2
+LocDEDE == 32
+BlockLocale(blocks, i) ==
+  IF blocks = 1 THEN LocENUS
+  ELSE IF blocks = 2 THEN (IF i % 2 = 1 THEN LocDEDE ELSE LocENUS)
+  ELSE (CASE i % 3 = 0 -> LocENUS [] i % 3 = 1 -> LocDEDE [] OTHER -> 0)
 Present(n, a) == a % 2 = 0 /\ a < 2 * n
 PopKeys(n)    == {2 * i : i \in 0..(n - 1)}
 RankOf(a)     == a \div 2                      \* position of a present key in sorted order (0-based)
@@ -232,7 +265,7 @@ ValueOf(h, sp, a) ==
           size |-> ToString(IF h.vp = "lo" THEN a + 1 ELSE a)]
     [] h.kind = "enc" /\ sp = "e" ->
          [spec |-> Specs[((a \div 2) % 3) + 1], size |-> ToString(IF h.vp = "lo" THEN a + 1 ELSE a)]
-    [] h.kind = "root"   -> [ck |-> VKey("c0", a), named |-> (a \div 2) < h.named]
+    [] h.kind = "root"   -> [ck |-> VKey("c0", a), named |-> (a \div 2) < h.named, loc |-> BlockLocale(h.blocks, a \div 2)]
     [] h.kind = "chain"  -> [ck |-> VKey("c0", a), ek |-> VKey("e0", a), named |-> (a \div 2) < h.named,
                              inenc |-> (a \div 2) % 3 # 2, size |-> ToString(IF h.vp = "lo" THEN a + 1 ELSE a)]
     [] h.kind = "tvfs"   ->
@@ -240,11 +273,18 @@ ValueOf(h, sp, a) ==
                      \o (IF HasFlag(h.flags, 1) THEN "c95a5a5a5a5a5a5a5a" ELSE "-")
          IN [t3 |-> t3, t4 |-> t3 \o ":" \o ToString(3 * a + 5)]
 
+\* An archive group merges several archive indices: a key stored in more than one of them is listed once,
+\* with the value of the FIRST source that holds it.  Program field dup = d > 0: every key of rank i with
+\* i mod d = 0 is also handed in a second time, after the original, with another value (in a later source
+\* index / by a later add_entry) - the map does not change.
 ModelOf(h) ==
   [c |-> [a \in PopKeys(h.n) |-> ValueOf(h, "c", a)],
    e |-> IF h.kind = "enc" THEN [b \in PopKeys(h.m) |-> ValueOf(h, "e", b)] ELSE <<>>]
 
 One(hit, x) == IF hit THEN <<x>> ELSE <<>>
+
+\* locale filter of the root lookups: a block answers a request iff the two masks share a bit
+\* (a block whose locale mask is 0 answers no filtered request; unfiltered flavours still see its records)
 
 \* what flavour fl of the API must return for abstract key a (a sequence of values; <<>> = nothing)
 Expect(h, m, sp, fl, a) ==
@@ -258,9 +298,11 @@ Expect(h, m, sp, fl, a) ==
        [] h.kind = "enc" /\ sp = "e" ->
             IF fl \in {"esize"} THEN One(hit, v.size) ELSE One(hit, v.spec)   \* espec, bespec, escan
        [] h.kind = "root" ->
-            IF fl \in {"id", "idown", "ents", "scan", "rfd"} THEN One(hit, v.ck)
+            IF fl \in {"ents", "scan", "rfd"} THEN One(hit, v.ck)                     \* no locale parameter
+            ELSE IF fl \in {"id", "idown"} THEN One(hit /\ v.loc # 0, v.ck)          \* request ALL / the block's own mask
             ELSE IF fl = "idother" THEN <<>>
-            ELSE One(hit /\ v.named, v.ck)                                    \* path, hash, pents, rpath
+            ELSE IF fl \in {"pents", "rpath"} THEN One(hit /\ v.named, v.ck)         \* no locale parameter
+            ELSE One(hit /\ v.named /\ v.loc # 0, v.ck)                              \* path, hash: request ALL
        [] h.kind = "chain" ->
             IF fl \in {"f2e", "f2e2"} THEN One(hit /\ v.inenc, v.ek)
             ELSE IF fl \in {"p2e", "p2e2"} THEN One(hit /\ v.inenc /\ v.named, v.ek)
